@@ -78,8 +78,14 @@ func (ch *ConnectionHandler) acceptStream() {
 			log.Debugf("Stream closed, existing loop.")
 			return
 		} else if err != nil {
-			log.WithError(err).Errorf("Error accepting stream: %v", err)
-			continue
+			// Every error returned here means that the session is gone (closed pipe, broken
+			// carrier, protocol violation, keep-alive timeout) and it will be returned again
+			// immediately on the next call, so retrying would only spin.
+			log.WithError(err).Errorf("Error accepting stream, session finished: %v", err)
+			if !ch.session.IsClosed() {
+				streams.TryClose(ch.session)
+			}
+			return
 		}
 		stream = streams.NewNamedConnection(stream, stream.RemoteAddr().String())
 		log.Debugf("[Server] New logical connection accepted: %v", stream)
